@@ -44,7 +44,7 @@ class ToList(Harness):
         self.name = name or 'to_list.%d_units' % n
         self.describe = 'to_list on an arbitrary value and %d unit-list entries with %s values' % (
             n, 'the real database' if consts else 'arbitrary positive')
-        self.assumptions = ['unit values in the list are positive (every database unit is); a zero-valued unit is C13 territory']
+        self.assumptions = ['unit values in the list are not negative (every database unit is positive; `ans` can be zero and must then be refused, not divided by)']
         self.bounds = ['list length %d' % n, 'units over base units %s' % (self.U,)]
         self.expect_classes = ['Result::Ok'] if consts else ['Result::Ok', 'Result::Err']
         self._concrete = None
@@ -67,8 +67,9 @@ class ToList(Harness):
             ents = []
             for i in range(self.n):
                 u = I.real('u%d' % i)
-                ex.assume(u > 0) if self._concrete is None else None
-                if self._concrete is not None and u <= 0:
+                # unit values are positive or zero: `ans` after a zero result, or a user-defined zero, can stand in a list
+                ex.assume(u >= 0) if self._concrete is None else None
+                if self._concrete is not None and u < 0:
                     from mirsym.exec import Infeasible
                     raise Infeasible()
                 D, ent = sym_dim(ex, I, 'd%d' % i, self.U, lo=-8, hi=8)
@@ -88,9 +89,11 @@ class ToList(Harness):
         for e in ents[1:]:
             all_same = b_and(all_same, dims_equal_formula(ents[0], e))
         top_ok = dims_equal_formula(entT, ents[0])
+        any_zero = z3.Or(*[zreal(u) == 0 for u in us]) if not self.consts else z3.BoolVal(False)
         if is_ok(r):
             obs.append(('accepted only when list units conform with each other', all_same))
             obs.append(('accepted only when the value conforms with the list', top_ok))
+            obs.append(('a list with a zero-valued unit is refused, not decomposed', z3.Not(any_zero)))
             parts = []
             rv = ex.prog.src.structs['NumberParts'].index('raw_value')
             for np_ in deref_all(payload(r)).fields:
@@ -124,7 +127,7 @@ class ToList(Harness):
             if isinstance(e, Enum) and e.vname == 'Conformance':
                 obs.append(('Conformance error only when value and list differ in dimension', z3.Not(zbool(top_ok))))
             else:
-                obs.append(('Generic error only for a non-conformable list member', z3.Not(zbool(all_same))))
+                obs.append(('Generic error only for a non-conformable list member or a zero-valued unit', z3.Or(z3.Not(zbool(all_same)), any_zero)))
         else:
             obs.append(('to_list returns a Result', False))
         return obs
@@ -154,6 +157,10 @@ class ToList(Harness):
         v = Fraction(inputs['v'])
         if self.consts:
             return [{'mode': 'query', 'text': '%s s' % frac_text(v)}]
+        if any(Fraction(inputs.get('u%d' % i, 1)) == 0 for i in range(self.n)):
+            # a zero-valued unit reaches a list through `ans`
+            return [{'mode': 'query', 'save_previous_result': True, 'pre': ['0 m'], 'text': '5 m -> ans; m'},
+                    {'mode': 'query', 'save_previous_result': True, 'pre': ['0 m'], 'text': '5 m -> m; ans'}]
         reqs = []
         # query-level: when every unit in the model is a plain length or time, rebuild the list from database units
         pool = {'m': ['meter', 'centimeter', 'foot', 'inch'], 's': ['hour', 'minute', 'second', 'millisecond']}
@@ -190,6 +197,10 @@ class ToList(Harness):
         return reqs
 
     def judge(self, inputs, label, obs):
+        if not self.consts and any(Fraction(inputs.get('u%d' % i, 1)) == 0 for i in range(self.n)):
+            bad = ['`%s` after `0 m`: %s' % (t, o.get('panic') or o.get('display')) for t, o in zip(('5 m -> ans; m', '5 m -> m; ans'), obs)
+                   if o.get('outcome') in ('panic', 'ok') or o.get('render_panic')]
+            return bool(bad), '; '.join(bad) or 'a list with a zero-valued unit is refused'
         v = Fraction(inputs['v'])
         if self.consts:
             o = obs[0]
@@ -518,3 +529,153 @@ _c09_prev2 = harnesses
 
 def harnesses(tier):   # noqa: F811
     return _c09_prev2(tier) + [DurationShown()]
+
+
+# --------------------------------------------------------------------------------------------------------------
+# How the entries of a unit list are SHOWN: numeral times the unit name printed next to it - the name read back the way
+# rink itself reads names - is the part.  Real to_list, lookup, to_parts / prettify (real prefix table), canonicalize.
+
+def _record_numeric_value(ex, nc, args):
+    n = deref_all(args[0])
+    ex.env.setdefault('printed', []).append(numeric_parts(n.fields[0])[1])
+    return Tup([some(ex, 'NUMERAL#%d' % len(ex.env['printed'])), none(ex)])
+
+
+class ListEntryShown(Harness):
+    name = 'to_list.entries_shown_in_their_units'
+    props = ('C09', 'C06')
+    entry_name = 'to_list ; Context::lookup on the printed names'
+    loop_bound = 400
+    max_paths = 40000
+    _concrete = None
+    stubs = (SHOW_STUB, CONF_STUB, UNKNOWN_STUB, DEFAULT_PARTS,
+             (r'^Number::numeric_value$', _record_numeric_value, 'Number::numeric_value -> records the value it is asked to print, returns a marker numeral'),
+             (r'^Number::unit_to_string$', None, None))
+
+    def __init__(self, names, lo=None, hi=None):
+        self.names = names
+        self.lo, self.hi = lo, hi
+        self.name = 'to_list.entries_shown_in_their_units' + ('' if lo is None else '.range')
+        self.describe = ('`v s -> %s` with an arbitrary rational v: for every entry, the value handed to the digit printer times the value of the unit '
+                         'name printed next to it (looked up by the real Context::lookup) equals the part times its unit - real to_parts / prettify with '
+                         'the database prefix table, real canonicalize') % ';'.join(names)
+        self.bounds = ['the list %s over the base unit s with the database prefixes' % (names,), 'value: %s' % ('any rational' if lo is None else 'between %s and %s s' % (lo, hi))]
+        self.expect_classes = ['Result::Ok']
+        self.stubs = tuple(x for x in ListEntryShown.stubs if x[1] is not None)
+
+    def build(self, ex, I):
+        v = I.real('v')
+        if self.lo is not None:
+            ex.assume(z3.And(v > zreal(self.lo), v < zreal(self.hi)))
+        table = dbvalues.prefixes()
+        base = MapV()
+        base.ent['s'] = [base_unit('s'), True, Tup([])]
+        longn = MapV()
+        longn.ent['s'] = ['s', True, 'second']
+        units = MapV()
+        units.ent['second'] = ['second', True, number(rational(Fraction(1)), dim({'s': (True, 1)}))]     # the loader's alias for the long name
+        reg = make_struct(ex, 'Registry', {'base_units': base, 'base_unit_long_names': longn, 'units': units,
+                                           'prefixes': Arr([Tup([n, rational(Fraction(val))]) for n, val in table])})
+        ctxv = make_struct(ex, 'Context', {'registry': reg, 'temporaries': MapV(), 'previous_result': none(ex)})
+        ex.env['printed'] = []
+        top = number(rational(v), dim({'s': (True, 1)}))
+        return [ref(ctxv), ref(top), ref(Arr(list(self.names)))], {'v': v, 'ctx': ctxv, 'table': {n: Fraction(val) for n, val in table}}
+
+    def entry(self, ex, args, ctx):
+        r = ex.call(None, 'runtime::eval::to_list', list(args))
+        rv = deref_all(r)
+        looked = []
+        if is_ok(rv):
+            f = ex.prog.src.structs['NumberParts']
+            for p in deref_all(payload(rv)).fields:
+                p = deref_all(p)
+                u = deref_all(p.fields[f.index('unit')])
+                label = deref_all(u.fields[0]) if u.variant == 1 else None
+                lk = ex.call(None, 'loader::context::Context::lookup', [args[0], label]) if isinstance(label, str) else None
+                looked.append((label, lk))
+        ctx['looked'] = looked
+        return r
+
+    def post(self, ex, ctx, outcome):
+        r = deref_all(outcome[1])
+        if not is_ok(r):
+            return [('a list of seconds units accepts a time', False)]
+        f = ex.prog.src.structs['NumberParts']
+        tab = ctx['table']
+        obs = []
+        for i, (p, (label, lk)) in enumerate(zip(deref_all(payload(r)).fields, ctx['looked'])):
+            p = deref_all(p)
+            raw = deref_all(p.fields[f.index('raw_value')])
+            ev = deref_all(p.fields[f.index('exact_value')])
+            marker = deref_all(ev.fields[0]) if ev.variant == 1 else None
+            if raw.variant == 0 or not isinstance(marker, str) or '#' not in marker:
+                obs.append(('entry %d carries a value and a numeral' % i, False))
+                continue
+            part = zreal(numeric_parts(number_parts(raw.fields[0])[0])[1])
+            printed = zreal(ex.env['printed'][int(marker.split('#')[1]) - 1])
+            # value of the requested unit: prefix * second
+            nm = self.names[i]
+            want_u = Fraction(1) if nm in ('s', 'second') else tab[nm[:-1]] if nm.endswith('s') and nm[:-1] in tab else None
+            if want_u is None:
+                obs.append(('harness knows the unit %s' % nm, False))
+                continue
+            lkv = deref_all(lk) if lk is not None else None
+            if lkv is None or not is_some(lkv):
+                obs.append(('entry %d: the printed unit name %r is a name rink resolves' % (i, label), False))
+                continue
+            lval, ldim = number_parts(payload(lkv))
+            names_ = [k for k, (pp, e) in ldim.items() if pp is True or simp(pp) is True]
+            obs.append(('entry %d: the printed unit name %r is a time' % (i, label), names_ == ['s']))
+            obs.append(('entry %d: printed numeral * value of %r = part * %s' % (i, label, nm), printed * zreal(numeric_parts(lval)[1]) == part * zreal(want_u)))
+        return obs
+
+    def prefer(self, ctx):
+        v = ctx['v']
+        return [z3.And(v > 0, v < 10), z3.IsInt(v * 10000)]
+
+    READBACK = [p_ + u_ for u_ in ('second', 'meter') for p_ in ('', 'yocto', 'zepto', 'atto', 'femto', 'pico', 'nano', 'micro', 'milli', 'kilo', 'mega',
+                                                                 'giga', 'tera', 'peta', 'exa', 'zetta', 'yotta')] + ['minute', 'hour']
+
+    def native(self, inputs, label):
+        v = Fraction(inputs['v'])
+        return [{'mode': 'query', 'text': '%s s -> %s' % (frac_text(v), ';'.join(self.names))}] + [{'mode': 'lookup', 'name': n} for n in self.READBACK]
+
+    def judge(self, inputs, label, obs):
+        q = obs[0]
+        if q.get('outcome') == 'panic' or q.get('render_panic'):
+            return True, 'panic %s' % (q.get('panic') or q.get('render_panic'))
+        j = q.get('json') or {}
+        if j.get('type') != 'unitList':
+            return False, 'not a unit list reply: %s' % q.get('display')
+        table = {}
+        for n, o in zip(self.READBACK, obs[1:]):
+            lk = o.get('lookup')
+            if lk:
+                table[n] = (Fraction(lk['value']), {k: int(e) for k, e in lk['unit'].items()})
+        total = Fraction(0)
+        bad = []
+        for p in j.get('list') or []:
+            nm = p.get('unit')
+            if nm not in table:
+                return False, 'printed unit %r is not in the read-back table' % nm
+            val_, d = table[nm]
+            if d != {'s': 1}:
+                bad.append('entry `%s %s` of %r names a unit that is not a time' % (p.get('exactValue'), nm, q.get('display')))
+                continue
+            try:
+                total += Fraction(p.get('exactValue')) * val_
+            except (ValueError, TypeError):
+                return False, 'numeral %r is not a plain decimal' % p.get('exactValue')
+        if not bad and total != Fraction(inputs['v']):
+            bad.append('%r: the entries as printed add up to %s s, the value is %s s' % (q.get('display'), total, inputs['v']))
+        return bool(bad), '; '.join(bad) or 'entries read back to the value'
+
+
+_c09_prev3 = harnesses
+
+
+def harnesses(tier):   # noqa: F811
+    if tier == 'quick':
+        return _c09_prev3(tier) + [ListEntryShown(['s', 'ms'], Fraction(1, 10 ** 7), Fraction(10 ** 4))]
+    hs = _c09_prev3(tier) + [ListEntryShown(['s', 'ms']), ListEntryShown(['ks', 's', 'ms']), ListEntryShown(['s', 'us'])]
+    return hs
